@@ -217,10 +217,19 @@ func (r *flowRun) recoveryProbe(net *simnet.Net, eps []*endpoint) {
 		switch {
 		case ep.conn != nil:
 			if ep.conn.Closed().IsSet() {
+				// a channel may still be handed out while the connection is closing, but nothing can be
+				// exchanged on it
 				ch, st := ep.conn.Channel(r.bg)
 				if st.OK() {
+					msg := payload(r.plan.Nonce, probeChan, 0, 0, 0, 32)
+					st = ch.Send(r.bg, msg)
+					if st.OK() {
+						_, st = ch.Receive(r.bg)
+					}
 					ch.Free()
-					simrt.Fail("C09-dead-conn-usable", "endpoint %d: Channel on a closed connection returned OK", i)
+					if st.OK() {
+						simrt.Fail("C09-dead-conn-usable", "endpoint %d: a message exchange on a closed connection succeeded", i)
+					}
 				}
 			}
 		case ep.client != nil:
